@@ -10,6 +10,7 @@ import (
 	"errors"
 	"fmt"
 	"io"
+	"net/http/httptest"
 	"os"
 	"os/exec"
 	"reflect"
@@ -272,10 +273,27 @@ func c15QueryAll(run *core.Run, m *minify.M, model *c15Model, log *c15Log, hist 
 		}
 		// the convenience entry points resolve and call exactly like Minify, for an empty body as for any other
 		for _, body := range []string{"", payload} {
-			for _, entry := range []string{"Bytes", "String", "Reader", "Writer"} {
+			for _, entry := range []string{"Bytes", "String", "Reader", "Writer", "ResponseWriter"} {
 				var eerr error
 				var eout string
+				if entry == "ResponseWriter" && (body == "" || strings.TrimSpace(q.s) == "") {
+					continue // nothing is written for an empty body; an empty Content-Type falls back to the path
+				}
 				switch entry {
+				case "ResponseWriter":
+					rec := httptest.NewRecorder()
+					mw := m.ResponseWriter(rec, httptest.NewRequest("GET", "http://example.com/", nil))
+					mw.Header().Set("Content-Type", q.s)
+					mw.Write([]byte(body))
+					eerr = mw.Close()
+					eout = rec.Body.String()
+					if fn == nil {
+						// no minifier for the type: the body passes through
+						if c := log.take(); eerr != nil || eout != body || len(c) != 0 {
+							report(q, fmt.Sprintf("ResponseWriter: Match finds no minifier but the body came out as %q (err %v, %d stubs ran)", eout, eerr, len(c)))
+						}
+						continue
+					}
 				case "Bytes":
 					var b []byte
 					b, eerr = m.Bytes(q.s, []byte(body))
@@ -453,6 +471,67 @@ func c15CmdCheck(run *core.Run, replay bool) string {
 	var out bytes.Buffer
 	if err := m.Minify("text/fail", &out, strings.NewReader("x")); err == nil {
 		bads = append(bads, "failing command reported success")
+	}
+	// registration order across the kinds of pattern: the first registered pattern that matches wins, whether it
+	// was added as a minifier, a function or a command; literals (also command literals) beat every pattern
+	{
+		mark := func(tag string) minify.MinifierFunc {
+			return func(_ *minify.M, w io.Writer, r io.Reader, _ map[string]string) error {
+				b, _ := io.ReadAll(r)
+				w.Write([]byte(tag + ":" + string(b)))
+				return nil
+			}
+		}
+		type reg struct {
+			kind, pat string
+		}
+		upper := func() *exec.Cmd { return exec.Command("tr", "a-z", "A-Z") }
+		for _, order := range [][]reg{
+			{{"func", `^ord/`}, {"cmd", `^ord/x`}},
+			{{"cmd", `^ord/`}, {"func", `^ord/x`}},
+			{{"func", `^ord/y`}, {"cmd", `^ord/`}, {"func", `^ord/x`}},
+			{{"cmd", `^ord/x`}, {"func", `.`}, {"cmdlit", `ord/x`}},
+			{{"func", `.`}, {"cmdlit", `ord/x`}, {"cmd", `^ord/x`}},
+		} {
+			mm := minify.New()
+			expect := ""
+			for i, r := range order {
+				tag := fmt.Sprintf("f%d", i)
+				switch r.kind {
+				case "func":
+					mm.AddFuncRegexp(regexp.MustCompile(r.pat), mark(tag))
+				case "cmd":
+					mm.AddCmdRegexp(regexp.MustCompile(r.pat), upper())
+					tag = "CMD"
+				case "cmdlit":
+					mm.AddCmd(r.pat, upper())
+					tag = "CMD"
+				}
+				matches := r.kind == "cmdlit" || regexp.MustCompile(r.pat).MatchString("ord/x")
+				if r.kind == "cmdlit" {
+					expect = tag // a literal wins over every pattern
+				} else if matches && expect == "" {
+					expect = tag
+				}
+			}
+			for _, o := range order {
+				if o.kind == "cmdlit" {
+					expect = "CMD"
+				}
+			}
+			if !replay {
+				run.Eval()
+			}
+			var ob bytes.Buffer
+			err := mm.Minify("ord/x", &ob, strings.NewReader("payload"))
+			want := expect + ":payload"
+			if expect == "CMD" {
+				want = "PAYLOAD"
+			}
+			if err != nil || ob.String() != want {
+				bads = append(bads, fmt.Sprintf("registrations %v: ord/x gave %q (%v), the first registered match gives %q", order, ob.String(), err, want))
+			}
+		}
 	}
 	// concurrent use (per-call exec.Cmd copy)
 	var wg sync.WaitGroup
